@@ -575,6 +575,11 @@ C20_SPECIAL = [
     ("deref_dyn_static", "Deref", "pub struct X { pub inner: dyn ::core::fmt::Debug + 'static }"),
     ("key_mentions_self", "Eq, PartialEq, Hash", "pub struct X { #[eq(key = Self::k(&$))] pub a: f64, pub b: u8 }\nimpl X { fn k(v: &f64) -> i64 { *v as i64 } }"),
     ("key_mentions_self_generic", "Ord, PartialOrd, Eq, PartialEq", "pub enum X<T> { A(#[ord(key = <Self>::k(&$))] T), B }\nimpl<T> X<T> { fn k(_v: &T) -> u8 { 0 } }"),
+    # several lists on one item, each with its own shared bound (or none)
+    ("stacked_lists_second_bound", "Clone", "#[derive_ex(Default, bound(T: ::core::default::Default))] pub struct X<T>(pub T, pub u8);"),
+    ("stacked_lists_first_bound", "Clone, bound(T: ::core::clone::Clone)", "#[derive_ex(Default)] #[derive_ex(Debug, bound(T: ::core::fmt::Debug, ..))] pub struct X<T>(pub T, pub u8);"),
+    ("stacked_lists_on_field", "Clone, Default", "pub struct X<T, U>(#[derive_ex(Clone(bound(T: ::core::clone::Clone)))] #[derive_ex(Default, bound(T: ::core::default::Default))] pub T, pub ::core::option::Option<U>);"),
+    ("stacked_lists_enum", "PartialEq", "#[derive_ex(Clone, bound(T: ::core::clone::Clone))] #[derive_ex(Debug)] pub enum X<T> { A(T), B }"),
     # known findings D19 / D20 (see known_findings.json)
     ("deref_trait_object_field", "Deref, DerefMut", "pub struct X(pub dyn ::core::fmt::Debug);"),
     ("deref_trait_object_field_multi", "Deref", "pub struct X(pub dyn ::core::fmt::Debug + Send);"),
